@@ -307,6 +307,26 @@ static void run_fault(struct ccase *c, long idx, vrng *r)
     char why[256] = ""; struct vpair_opts po = { .user_timeout = 60 };
     if (veng_pair(c->tp, &A, &B, &S, &po, why, sizeof why) < 0) { vobs("setup_failed", 1); goto out; }
     if (vtp_is_tls(c->tp) && (vrnd_p(r, 30) || getenv("VERIF_C06_DIRTY"))) prior_tls_protocol_error();
+    if (c->fcall == VS_SEND && c->tp != TP_BTCP && vrnd_p(r, 25)) {
+        /* the blocking form: the call's first write goes out in part, the next is refused, and the failure arrives while the very same
+         * xcm_send is flushing what it has accepted - that call is the one that discovers it and has to say so */
+        if (vx_set_blocking(&A, true) == 0) {
+            A.plan.frag_send_pct = 100; A.plan.frag_max = 50; A.plan.refuse_after_partial = true;
+            A.plan.fail_errno = c->ferrno; A.plan.fail_call = VS_SEND; A.plan.fail_at = (int)A.plan.n_call[VS_SEND] + 3; A.plan.fail_fired = false;
+            uint32_t len = A.bytestream ? 20000 : 3000; unsigned char *b = malloc(len);
+            long ai = veng_att_begin(&A, len); veng_fill(A.key, A.att[ai].id, b, len);
+            int rc = vx_send(&A, b, len); int se = errno; free(b); veng_att_end(&A, ai, rc, se);
+            vobs("blocking_sends_meeting_the_fault_while_flushing", 1);
+            if (A.plan.fail_fired) {
+                vobs("faults_fired", 1);
+                if (!(rc < 0 && se == c->ferrno)) tv(c, &A, "discoverer-misreports", "blocking xcm_send (first write partial, second refused) met the injected %s while flushing what it had accepted, but returned %d errno %d (%s)", strerror(c->ferrno), rc, se, strerror(se));
+                else { errno = 0; unsigned char one[8] = { 0 }; int rc2 = vx_send(&A, one, sizeof one); int se2 = errno; bool pipe_ok = c->ferrno == EPIPE && rc2 < 0 && se2 == EPIPE;
+                       if (!(rc2 < 0 && (se2 == c->ferrno || pipe_ok))) tv(c, &A, "errno-not-sticky", "after a blocking xcm_send had failed with %s the next xcm_send returned %d errno %d", strerror(c->ferrno), rc2, se2); }
+            }
+            { char tup[160]; snprintf(tup, sizeof tup, "fault-blocking|%s|%d", vtp_name[c->tp], c->ferrno); vsig_str(tup); }
+            goto out;
+        }
+    }
     /* the peer has sent some messages; optionally the endpoint under test has a frame pending */
     send_msgs(&B, c->nmsg, r, false); flush(&B, NULL, NULL);
     if (c->pending_frame) { for (int i = 0; i < 400; i++) { send_msgs(&A, 1, r, true); if (A.n_att && A.att[A.n_att - 1].state == -1) break; } }
